@@ -1,7 +1,6 @@
 (* C16 -- proofs.  Part 1: the faithful machine (methods of the six classes as
    written in /repo) coincides with the specification machine on every step
-   outside the strata of the recorded findings, hence on every program whose
-   run stays outside them. *)
+   from every well-formed object, hence on every program. *)
 From Coq Require Import ZArith List Bool Arith Lia Permutation.
 From Verif Require Import Scalar NdIndex C16Model C16Index.
 Import ListNotations.
@@ -150,6 +149,15 @@ Proof.
   - rewrite set_flags_mk. unfold drow. rewrite gather_combine. reflexivity.
 Qed.
 
+(* Object3d's pattern in flatten / reshape / transpose: rebuild from `.data`,
+   then overwrite `_data` with the rows moved by the same plan *)
+Lemma base_both (rows : list row) p :
+  match apply_plan dv (map fst rows) p, apply_plan dr rows p with
+  | Some (s', d'), Some (s'', r') => Some (set_rows (mk s' d') s'' r')
+  | _, _ => None
+  end
+  = match apply_plan dr rows p with Some (s', l') => Some (mkObj s' l' meta0) | None => None end.
+Proof. destruct p; reflexivity. Qed.
 
 Lemma combine_map_fst (f : V -> V) (rows : list row) :
   combine (map f (map fst rows)) (map snd rows) = map (fun r => (f (fst r), snd r)) rows.
@@ -170,28 +178,27 @@ Ltac split_wf H :=
 
 (* element-wise operations *)
 Lemma eop_spec c e s rows m :
-  wf c (mkObj s rows m) = true -> safe_eop c e (mkObj s rows m) = true ->
+  wf c (mkObj s rows m) = true ->
   m_eop vf c e (mkObj s rows m)
   = match sact vf c e with
     | Some f => Some (mkObj s (map f rows) (smeta c (OEl e) m))
     | None => None
     end.
 Proof.
-  intros Hwf Hsafe. split_wf Hwf.
+  intros Hwf. split_wf Hwf.
   destruct e; simpl.
   - (* id *) rewrite map_id. destruct c; reflexivity.
   - (* unit *)
-    destruct c; simpl in *; unfold base_unit, ori_unit, mil_unit, mil_wrap, obind, base_unit,
-      attach_ori_sym, attach_miller, set_meta, o_data; simpl.
+    destruct c; simpl in *; cbv beta iota delta [base_unit rot_unit mis_unit ori_unit mil_unit mil_wrap obind
+      o_data o_flags orows oshape ometa].
     + apply meta_eqb_eq in Hm; subst m. unfold mk. rewrite nf_map_fst by exact Hf. reflexivity.
-    + apply meta_eqb_eq in Hm; subst m. rewrite andb_true_r in Hsafe.
-      unfold mk. rewrite nf_map_fst by exact Hsafe. reflexivity.
-    + apply andb_true_iff in Hsafe as [Hn Hm0]. apply meta_eqb_eq in Hm0; subst m.
-      unfold mk. rewrite nf_map_fst by exact Hn. reflexivity.
-    + rewrite andb_true_r in Hsafe. rewrite nf_map_fst by exact Hsafe.
+    + apply meta_eqb_eq in Hm; subst m. rewrite set_flags_mk, combine_map_fst. reflexivity.
+    + rewrite set_flags_mk, combine_map_fst. unfold attach_sym, set_meta; simpl.
+      pose proof (wf_meta_mis CMis m Hm) as E; simpl in E. rewrite E. reflexivity.
+    + rewrite set_flags_mk, combine_map_fst. unfold attach_sym, attach_ori_sym, set_meta; simpl.
       rewrite (wf_meta_ori _ Hm). reflexivity.
     + apply meta_eqb_eq in Hm; subst m. unfold mk. rewrite nf_map_fst by exact Hf. reflexivity.
-    + rewrite o_data_mk. rewrite nf_map_fst by exact Hf.
+    + rewrite data_only_mk. unfold attach_miller, set_meta, mk; simpl. rewrite nf_map_fst by exact Hf.
       rewrite (wf_meta_mil _ Hm). reflexivity.
   - (* inverse *)
     destruct c; simpl in *; cbv beta iota delta [quat_invert rot_invert mis_invert ori_invert obind o_data o_flags
@@ -204,15 +211,17 @@ Proof.
     + rewrite set_flags_mk, combine_map_fst. unfold attach_ori_sym, set_meta; simpl.
       rewrite (wf_meta_ori _ Hm). reflexivity.
   - (* negation *)
-    destruct c; simpl in *; cbv beta iota delta [quat_neg rot_neg ori_neg vec_neg obind o_data o_flags
+    destruct c; simpl in *; cbv beta iota delta [quat_neg rot_neg mis_neg ori_neg vec_neg mil_neg obind o_data o_flags
       orows oshape ometa].
     + apply meta_eqb_eq in Hm; subst m. unfold mk. rewrite nf_map_fst by exact Hf. reflexivity.
     + apply meta_eqb_eq in Hm; subst m. rewrite set_flags_mk, combine_map_snd. reflexivity.
-    + apply meta_eqb_eq in Hsafe; subst m. rewrite set_flags_mk, combine_map_snd. reflexivity.
-    + rewrite set_flags_mk, combine_map_snd. unfold attach_ori_sym, set_meta; simpl.
+    + rewrite set_flags_mk, combine_map_snd. unfold attach_sym, set_meta; simpl.
+      pose proof (wf_meta_mis CMis m Hm) as E; simpl in E. rewrite E. reflexivity.
+    + rewrite set_flags_mk, combine_map_snd. unfold attach_sym, attach_ori_sym, set_meta; simpl.
       rewrite (wf_meta_ori _ Hm). reflexivity.
     + apply meta_eqb_eq in Hm; subst m. unfold mk. rewrite nf_map_fst by exact Hf. reflexivity.
-    + apply meta_eqb_eq in Hsafe; subst m. unfold mk. rewrite nf_map_fst by exact Hf. reflexivity.
+    + unfold attach_miller, set_meta, mk; simpl. rewrite nf_map_fst by exact Hf.
+      rewrite (wf_meta_mil _ Hm). reflexivity.
 Qed.
 
 Lemma nf_apply_plan (rows : list row) p s' l' :
@@ -228,8 +237,7 @@ Proof. intros H. unfold data_only, mk, o_data; simpl. rewrite nf_reset by exact 
 Lemma map_fst_gather (rows : list row) ks : map fst (gather dr rows ks) = gather dv (map fst rows) ks.
 Proof. change dv with (fst dr). symmetry. apply gather_map. Qed.
 
-(* noflags of a well-formed object of a class without flag column, or of any
-   object on which a flag-resetting step is declared safe *)
+(* noflags of a well-formed object of a class without flag column *)
 Lemma wf_nf c s (rows : list row) m :
   wf c (mkObj s rows m) = true -> is_rot c = false -> nf rows = true.
 Proof.
@@ -240,14 +248,14 @@ Definition is_struct (o : op) : bool := match o with OEl _ | OStack _ => false |
 
 Lemma struct_spec c o s rows m :
   is_struct o = true ->
-  wf c (mkObj s rows m) = true -> safe_step c o (mkObj s rows m) = true ->
+  wf c (mkObj s rows m) = true ->
   step_cls vf c o (mkObj s rows m)
   = match apply_plan dr rows (plan_of o s) with
     | Some (s', l') => Some (mkObj s' l' m)
     | None => None
     end.
 Proof.
-  intros Hs Hwf Hsafe.
+  intros Hs Hwf.
   assert (Hnr : is_rot c = false -> nf rows = true) by (apply (wf_nf c s rows m Hwf)).
   pose proof Hwf as Hwf'. split_wf Hwf'.
   pose proof (wf_meta_plain c m Hm) as Hplain.
@@ -294,34 +302,31 @@ Proof.
     destruct c; cbn [m_transpose]; unfold mis_transpose, mil_transpose, mil_wrap, obind, base_transpose, o_data;
       cbn [orows oshape ometa]; unfold plan_transpose;
       destruct (Nat.eqb (length s) 1) eqn:E1; cbn [apply_plan];
-      simpl in Hsafe; try rewrite E1 in Hsafe; simpl in Hsafe;
-      try reflexivity.
-    + rewrite base_plan_nf by (apply Hnr; reflexivity). subst m. reflexivity.
-    + rewrite base_plan_nf by exact Hsafe. subst m. reflexivity.
+      try rewrite base_both; try reflexivity.
+    + subst m. reflexivity.
+    + subst m. reflexivity.
     + unfold attach_sym, set_meta; simpl. rewrite Hmis; reflexivity.
-    + rewrite base_plan_nf by exact Hsafe.
-      match goal with |- context[apply_plan dr rows ?p] => destruct (apply_plan dr rows p) as [[s' l']|] end;
+    + match goal with |- context[apply_plan dr rows ?p] => destruct (apply_plan dr rows p) as [[s' l']|] end;
         [|reflexivity].
       unfold attach_sym, set_meta; simpl. rewrite Hmis; reflexivity.
     + unfold attach_sym, set_meta; simpl. rewrite Hmis; reflexivity.
-    + rewrite base_plan_nf by exact Hsafe.
-      match goal with |- context[apply_plan dr rows ?p] => destruct (apply_plan dr rows p) as [[s' l']|] end;
+    + match goal with |- context[apply_plan dr rows ?p] => destruct (apply_plan dr rows p) as [[s' l']|] end;
         [|reflexivity].
       unfold attach_sym, set_meta; simpl. rewrite Hmis; reflexivity.
-    + rewrite base_plan_nf by (apply Hnr; reflexivity). subst m. reflexivity.
+    + subst m. reflexivity.
     + rewrite data_only_nf by (apply Hnr; reflexivity).
       unfold attach_miller, set_meta; simpl. rewrite (wf_meta_mil _ Hm). reflexivity.
-    + rewrite base_plan_nf by (apply Hnr; reflexivity).
-      match goal with |- context[apply_plan dr rows ?p] => destruct (apply_plan dr rows p) as [[s' l']|] eqn:E end;
+    + match goal with |- context[apply_plan dr rows ?p] => destruct (apply_plan dr rows p) as [[s' l']|] eqn:E end;
         [|reflexivity].
       rewrite data_only_nf by (eapply nf_apply_plan; [apply Hnr; reflexivity|exact E]).
       unfold attach_miller, set_meta; simpl. rewrite (wf_meta_mil _ Hm). reflexivity.
   - (* squeeze *)
-    destruct c; cbn [m_squeeze]; unfold mis_squeeze, obind, base_squeeze, o_data;
+    destruct c; cbn [m_squeeze]; unfold mis_squeeze, mil_squeeze, obind, base_squeeze, o_data;
       cbn [orows oshape ometa]; unfold plan_squeeze; cbn [apply_plan];
       unfold set_rows, attach_sym, set_meta; simpl; try (subst m; reflexivity);
       try (rewrite Hmis; reflexivity).
-    discriminate Hsafe.
+    unfold mk. rewrite nf_reset by (apply Hnr; reflexivity).
+    unfold attach_miller, set_meta; simpl. rewrite (wf_meta_mil _ Hm). reflexivity.
 Qed.
 
 Lemma shape_eqn_refl s : shape_eqn s s = true.
@@ -330,7 +335,6 @@ Proof. induction s as [|n s IH]; simpl; [reflexivity|]. rewrite Nat.eqb_refl, IH
 (* the variants of a stack: each is the element-wise image of the operand *)
 Lemma eops_all c vs s rows m :
   wf c (mkObj s rows m) = true ->
-  forallb (fun e => safe_eop c e (mkObj s rows m)) vs = true ->
   match all_some (map (sact vf c) vs) with
   | Some fs => exists xs, all_some (map (fun e => m_eop vf c e (mkObj s rows m)) vs) = Some xs
                           /\ map orows xs = map (fun f => map f rows) fs
@@ -338,10 +342,9 @@ Lemma eops_all c vs s rows m :
   | None => all_some (map (fun e => m_eop vf c e (mkObj s rows m)) vs) = None
   end.
 Proof.
-  intros Hwf. induction vs as [|e vs IH]; intros Hs; simpl.
+  intros Hwf. induction vs as [|e vs IH]; simpl.
   - exists []; repeat split; constructor.
-  - simpl in Hs. apply andb_true_iff in Hs as [He Hs]. specialize (IH Hs).
-    rewrite (eop_spec c e s rows m Hwf He).
+  - rewrite (eop_spec c e s rows m Hwf).
     destruct (sact vf c e) as [f|]; [|reflexivity].
     destruct (all_some (map (sact vf c) vs)) as [fs|].
     + destruct IH as [xs [E1 [E2 [E3 E4]]]]. rewrite E1.
@@ -359,18 +362,18 @@ Proof.
   rewrite Hy, shape_eqn_refl, IH. reflexivity.
 Qed.
 
-(* ONE STEP: faithful = specification, outside the findings *)
+(* ONE STEP: faithful = specification *)
 Theorem step_faithful c o x :
-  wf c x = true -> safe_step c o x = true -> step_cls vf c o x = step_spec vf c o x.
+  wf c x = true -> step_cls vf c o x = step_spec vf c o x.
 Proof.
-  destruct x as [s rows m]. intros Hwf Hsafe.
+  destruct x as [s rows m]. intros Hwf.
   destruct (is_struct o) eqn:Hst.
-  - rewrite (struct_spec c o s rows m Hst Hwf Hsafe). unfold step_spec; cbn [oshape orows ometa].
+  - rewrite (struct_spec c o s rows m Hst Hwf). unfold step_spec; cbn [oshape orows ometa].
     destruct o; try discriminate Hst; cbn [astep smeta plan_of]; reflexivity.
   - destruct o as [| | | | |vs|e]; try discriminate Hst.
     + (* stack *)
       cbn [step_cls]. unfold step_spec; cbn [oshape orows ometa astep smeta].
-      simpl in Hsafe. pose proof (eops_all c vs s rows m Hwf Hsafe) as H.
+      pose proof (eops_all c vs s rows m Hwf) as H.
       destruct vs as [|e0 vs']; [reflexivity|].
       destruct (all_some (map (sact vf c) (e0 :: vs'))) as [fs|].
       * destruct H as [xs [E1 [E2 [E3 E4]]]]. rewrite E1. cbn [obind].
@@ -383,7 +386,7 @@ Proof.
         rewrite E2, E4. reflexivity.
       * rewrite H. reflexivity.
     + (* element-wise *)
-      cbn [step_cls]. simpl in Hsafe. rewrite (eop_spec c e s rows m Hwf Hsafe).
+      cbn [step_cls]. rewrite (eop_spec c e s rows m Hwf).
       unfold step_spec; cbn [oshape orows ometa astep].
       destruct (sact vf c e); reflexivity.
 Qed.
@@ -458,14 +461,12 @@ Qed.
 
 (* PROGRAMS: by induction over the operation list *)
 Theorem run_faithful c p : forall x,
-  wf c x = true -> safe_run vf c p x = true ->
-  run (step_cls vf c) p x = run (step_spec vf c) p x.
+  wf c x = true -> run (step_cls vf c) p x = run (step_spec vf c) p x.
 Proof.
-  induction p as [|o p IH]; intros x Hwf Hsafe; simpl; [reflexivity|].
-  simpl in Hsafe. apply andb_true_iff in Hsafe as [Hs Hr].
-  rewrite (step_faithful c o x Hwf Hs).
+  induction p as [|o p IH]; intros x Hwf; simpl; [reflexivity|].
+  rewrite (step_faithful c o x Hwf).
   destruct (step_spec vf c o x) as [x'|] eqn:E; [|reflexivity].
-  apply IH; [eapply step_spec_wf; eassumption|exact Hr].
+  apply IH. eapply step_spec_wf; eassumption.
 Qed.
 
 Lemma run_spec_wf c p : forall x x',
@@ -476,25 +477,6 @@ Proof.
   - destruct (step_spec vf c o x) as [x1|] eqn:E; [|discriminate].
     apply IH. eapply step_spec_wf; eassumption.
 Qed.
-
-(* quaternions and vectors: every step is safe, so the faithful machine IS
-   the specification on all programs *)
-Lemma safe_plain c : (c = CQuat \/ c = CVec) -> forall p x, safe_run vf c p x = true.
-Proof.
-  intros Hc. induction p as [|o p IH]; intros x; simpl; [reflexivity|].
-  assert (Hs : safe_step c o x = true).
-  { destruct Hc; subst c; destruct o as [| | | | |vs|e]; simpl; try reflexivity.
-    - induction vs as [|e vs IHv]; simpl; [reflexivity|]. rewrite IHv. destruct e; reflexivity.
-    - destruct e; reflexivity.
-    - induction vs as [|e vs IHv]; simpl; [reflexivity|]. rewrite IHv. destruct e; reflexivity.
-    - destruct e; reflexivity. }
-  rewrite Hs. simpl. destruct (step_spec vf c o x); [apply IH|reflexivity].
-Qed.
-
-Theorem run_faithful_plain c p x :
-  (c = CQuat \/ c = CVec) -> wf c x = true ->
-  run (step_cls vf c) p x = run (step_spec vf c) p x.
-Proof. intros Hc Hwf. apply run_faithful; [exact Hwf|apply safe_plain; exact Hc]. Qed.
 
 End Faithful.
 
